@@ -1,5 +1,6 @@
 """Helpers to drive the real torchtree implementation (imported from /repo's working tree)."""
 import importlib
+import os
 import sys
 
 _loaded = False
@@ -10,6 +11,8 @@ def load():
     import torch
     if not _loaded:
         torch.set_default_dtype(torch.float64)
+        # tiny tensors everywhere: intra-op threads only add contention when several checks run at once
+        torch.set_num_threads(int(os.environ.get("VERIF_TORCH_THREADS", "2")))
         from torchtree.core.utils import package_contents
         for m in package_contents("torchtree"):
             try:
